@@ -587,8 +587,12 @@ func (x *fnv) isNil(v Value) *Term {
 }
 
 func (x *fnv) evalCompositeLit(s *State, e *ast.CompositeLit) Value {
+	return x.evalCompositeLitAs(s, e, x.typeOf(e))
+}
+
+// evalCompositeLitAs evaluates a literal whose type is given by the context (elided element types).
+func (x *fnv) evalCompositeLitAs(s *State, e *ast.CompositeLit, t types.Type) Value {
 	c := x.c
-	t := x.typeOf(e)
 	switch u := t.Underlying().(type) {
 	case *types.Struct:
 		v := x.h.zeroValue(t)
@@ -633,7 +637,7 @@ func (x *fnv) evalCompositeLit(s *State, e *ast.CompositeLit) Value {
 func (x *fnv) evalElt(s *State, e ast.Expr, want types.Type) Value {
 	if cl, ok := e.(*ast.CompositeLit); ok && cl.Type == nil {
 		if pt, ok := want.Underlying().(*types.Pointer); ok {
-			v := x.evalCompositeLit(s, cl)
+			v := x.evalCompositeLitAs(s, cl, pt.Elem())
 			r := x.h.alloc(s, "obj")
 			x.h.StorePtr(s, pt.Elem(), r, v)
 			return Value{T: want, Term: r}
